@@ -128,10 +128,8 @@ func HarnessC05() {
 	}
 	ord := orders[zz.Choice(len(orders))]
 	par := 1 + zz.Choice(2)
-	pre := 1
-	if zz.Tier() == 1 && variant == 0 {
-		pre = 2
-	}
+	pre := 1 // (both tiers; the thorough tier adds configurations, not schedule depth)
+	_ = variant
 	zz.Schedule(0)
 	want := zzC05Compile(p, 1, orders[0])
 	zz.Schedule(pre)
